@@ -107,4 +107,25 @@ func init() {
 	properties["C11"].Filter = keepIf(func(rule, key string) bool {
 		return rule == "P0" || strings.HasPrefix(key, "reader/traceql/")
 	})
+	properties["C18"] = &Property{
+		Rules: []string{"A5", "C5", "J1", "J2"},
+		Explanation: "Decides the order-on-all-paths and re-runnability clauses of C18: (A5) in the migration runner the version row is written only on the success edge of the statement of the same iteration, records (stream id, i+1), and the loop runs every statement from the version recorded for that stream without skipping; " +
+			"(C5) stream ids and scripts are in bijection, every embedded script is run, distributed scripts only in distributed mode; (J1) no database error in ctrl/ is dropped; (J2) every statement of every embedded script is harmless when executed again. " +
+			"Crash points are covered because the rules are dominance facts: a crash after statement s leaves exactly the effects that dominate s — by A5 never the version row of an unfinished statement — and by J2 re-running the unrecorded statement is harmless.",
+		NotCovered:  "ClickHouse's own DDL atomicity and ON CLUSTER propagation; the re-run behaviour of MODIFY ORDER BY (server semantics, classified idempotent); that the final schema equals an uninterrupted run's beyond statement re-runnability.",
+		Assumptions: []string{"ClickHouse semantics of IF [NOT] EXISTS guards", "each ;-blank-line separated statement is one version (getSQLFile; the rule splits scripts the same way)"},
+		Filter: keepIf(func(rule, key string) bool {
+			return rule != "C5" || !strings.HasPrefix(key, "settings key")
+		}),
+	}
+	properties["C19"] = &Property{
+		Rules: []string{"A6", "C5", "C6", "J1"},
+		Explanation: "Decides the order/guard clauses of C19: (A6) in each live function that records an applied retention setting, every ALTER sits in the loop over the table list, its failure leaves the function, it applies the very value that is recorded, the record is written after the loop, and ALTERs and record are dominated by the `recorded != desired` edge of a comparison against the value read under the same (type, name) key — so unchanged configuration issues no ALTER and an interrupted run records nothing; " +
+			"(C5) getSetting and putSetting derive the key identically; (C6) tier durations are clamped to a per-table minimum that is one day for `date`-based index tables and one minute for sample tables; (J1) no database error in ctrl/ is dropped.",
+		NotCovered:  "That the TTL expression text is what ClickHouse ends up with; equality of TTL after server-side normalisation; clustered propagation.",
+		Assumptions: []string{"the settings table returns the last recorded value (argMax by inserted_at)"},
+		Filter: keepIf(func(rule, key string) bool {
+			return rule != "C5" || strings.HasPrefix(key, "settings key")
+		}),
+	}
 }
